@@ -274,6 +274,14 @@ func genC19Project(r *vh.Rng, name, kind string) *proj.Project {
 		o.Extreme = true
 	}
 	p := proj.Gen(r, name, o)
+	if kind != "peat" && r.Chance(0.35) {
+		// skeletal soils: the stone fraction scales the water parameters, not the bulk density of the heat scheme
+		for i := range p.Soil {
+			if r.Chance(0.7) {
+				p.Soil[i].Stone = r.Range(45, 90)
+			}
+		}
+	}
 	switch kind {
 	case "measured":
 		for i := range p.Soil {
@@ -362,7 +370,25 @@ func soilTempRunStage(c *vh.Ctx, nRuns int) {
 					if used < 1 {
 						used = 1
 					}
-					st.cls = densityClassOf(g.BD[:used])
+					// the bulk density the heat scheme must work with is the one of the soil file (measured value, else
+					// the class density) — the class of the run is taken from the INPUT, and the state is compared with it
+					want := make([]float64, 0, n)
+					for z := 1; z <= n; z++ {
+						h := p.Soil[horizonOfLayer(p, z)]
+						bd := h.Bulk
+						if bd == 0 && h.LD >= 1 && h.LD <= 5 {
+							bd = classDensities[h.LD-1]
+						}
+						want = append(want, bd)
+					}
+					st.cls = densityClassOf(want[:used])
+					for z := 0; z < n; z++ {
+						if want[z] > 0 && g.BD[z] != want[z] {
+							c19Report(c, "soiltemp-run", "bulk-density-differs-from-soil-file", st.cls, fmt.Sprintf("layer %d: the heat scheme works with bulk density %v, the soil file gives %v (stone fraction %d %%)", z+1, g.BD[z], want[z], p.Soil[horizonOfLayer(p, z+1)].Stone),
+								c19RunCase{Kind: kind, Project: p, Day: zeit, Layer: z + 1, Detail: "g.BD vs soil file"})
+							break
+						}
+					}
 					// init.go:16-20: linear profile between (TMIN+TMAX)/2 of the start day and TBASE
 					t0 := (g.TMIN[g.ITAG-1] + g.TMAX[g.ITAG-1]) / 2
 					st.lo, st.hi = minMax(t0, g.TBASE)
